@@ -322,6 +322,47 @@ def run_unit(ctx, unit):
             if x.get("f") != k or x.get("n") != ctx.scratch + "/" + files[j][0]:
                 st.violation("per-file-context", "&index-in-file / &file-name wrong in file %d" % j, unit, {"row": x})
                 return
+    # limits and sorters see the same input context: --skip cuts rows, it does not renumber what is left; a sorter hands its
+    # rows on with everything they knew (a more significant key or a group key may read &file-name behind it)
+    k = len(want) // 2
+    extra = [core.Case(fargs + ["--skip", str(k)], b"", files=files),
+             core.Case(fargs + ["--sort-by", "&file-name", "--sort-by", "&index"], b"", files=files),
+             core.Case(fargs + ["--sort-by", "&index-in-file DESC", "--group-by", "&file-name"], b"", files=files)]
+    oe = ctx.drv.run_many(extra) if prng.random() < 0.4 else []
+    if oe and all(o.result == "ok" for o in oe):
+        try:
+            r_skip, r_sort = parse_rows(oe[0].stdout), parse_rows(oe[1].stdout)
+            r_grp = [jm.plain(x) for x in jm.read_rows(oe[2].stdout)]
+        except jm.JsonError as e:
+            st.violation("unreadable-extra", str(e), unit, None)
+            return
+        if r_skip != want[k:]:
+            st.violation("skip-changes-context", "--skip %d: the rows left are not the rows of the run without it" % k, unit, {"got": r_skip[:4], "want": want[k:k + 4]})
+            return
+        w_sort = sorted(want, key=lambda x: (x.get("n", ""), x.get("i", 0)))
+        if r_sort != w_sort:
+            st.violation("context-behind-sorter", "--sort-by &file-name --sort-by &index is not the rows ordered by file name, then index", unit, {"got": r_sort[:4], "want": w_sort[:4]})
+            return
+        names = []
+        for x in want:
+            if x.get("n") not in names:
+                names.append(x.get("n"))
+        if want and (len(r_grp) != 1 or not isinstance(r_grp[0], dict) or sorted(r_grp[0].keys()) != sorted(n for n in names if isinstance(n, str)) or
+                     sum(len(v) for v in r_grp[0].values()) != len(want)):
+            st.violation("group-by-file-name-behind-sorter", "--sort-by .. --group-by &file-name does not hold every row under its file's name", unit, {"got": r_grp, "files": names})
+            return
+        st.count("context_behind_limits_and_sorters")
+    # a directory named twice, and a directory together with one of its sub-directories: read twice
+    if len(files) >= 1 and prng.random() < 0.3:
+        dfiles2 = [("tw/" + ("sub/" if j % 2 else "") + "g%d.json" % j, p) for j, (nme, p) in enumerate(files)]
+        o1, o2, o3 = ctx.drv.run_many([core.Case(args + ["@D@/tw"], b"", files=dfiles2), core.Case(args + ["@D@/tw", "@D@/tw"], b"", files=dfiles2),
+                                       core.Case(args + ["@D@/tw", "@D@/tw/sub"], b"", files=dfiles2 + [("tw/sub/", b"")])])
+        if o1.result == "ok" and o2.result == "ok" and o3.result == "ok":
+            n1, n2, n3 = o1.stdout.count(b"\n"), o2.stdout.count(b"\n"), o3.stdout.count(b"\n")
+            if n2 != 2 * n1 or n3 < n1:
+                st.violation("directory-named-twice", "a directory gives %d rows, named twice %d, with its sub-directory named too %d" % (n1, n2, n3), unit, None)
+                return
+            st.count("directory_twice_runs")
     # the same pieces as the files of ONE directory argument: the order of the files is the file system's, but &index must
     # count 0,1,2.. through them, &index-in-file restarts per file and each file's values stay together
     if len(files) >= 2 and prng.random() < 0.5:
